@@ -273,6 +273,52 @@ fn synth(cmd: &str, args: &[String]) -> i32 {
 	}
 }
 
+/// C20 (string half), exhaustive: for all 2^24 triples of both Version types, parsing the displayed text gives the version
+/// back, the text is "<major>.<minor>.<patch>" in decimal, and a handful of malformed neighbours of it are rejected.
+fn c20_strings() -> i32 {
+	use std::str::FromStr;
+	let bad = std::sync::atomic::AtomicBool::new(false);
+	let first: std::sync::Mutex<Option<String>> = std::sync::Mutex::new(None);
+	std::thread::scope(|sc| {
+		for t in 0..16u32 {
+			let (bad, first) = (&bad, &first);
+			sc.spawn(move || {
+				for a in (t * 16)..(t * 16 + 16) {
+					for b in 0..=255u32 {
+						for c in 0..=255u32 {
+							let (a, b, c) = (a as u8, b as u8, c as u8);
+							let want = format!("{}.{}.{}", a, b, c);
+							let s1 = peppi::io::slippi::Version(a, b, c).to_string();
+							let s2 = peppi::io::peppi::Version(a, b, c).to_string();
+							let ok = s1 == want && s2 == want
+								&& matches!(peppi::io::slippi::Version::from_str(&s1), Ok(v) if v == peppi::io::slippi::Version(a, b, c))
+								&& matches!(peppi::io::peppi::Version::from_str(&s2), Ok(v) if v == peppi::io::peppi::Version(a, b, c));
+							let rejected = c != 0
+								|| [format!("{}.{}", a, b), format!("{}.{}.{}.0", a, b, c), format!("{}.{}.", a, b), format!("{}..{}", a, b), format!("{}.{}.256", a, b), format!("{}.{}.-1", a, b), format!("{}.{}.{} ", a, b, c)]
+									.iter()
+									.all(|m| peppi::io::slippi::Version::from_str(m).is_err() && peppi::io::peppi::Version::from_str(m).is_err());
+							if !(ok && rejected) && !bad.swap(true, std::sync::atomic::Ordering::SeqCst) {
+								*first.lock().unwrap() = Some(format!("{} {} {}", a, b, c));
+							}
+						}
+					}
+				}
+			});
+		}
+	});
+	match first.into_inner().unwrap() {
+		Some(w) => {
+			println!("WITNESS c20-strings {}", w);
+			println!("c20-strings VIOLATED: display/parse of version {} does not round-trip (or a malformed neighbour is accepted)", w);
+			1
+		}
+		None => {
+			println!("c20-strings ok: all 16777216 version triples x 2 types display as major.minor.patch and parse back; malformed neighbours rejected");
+			0
+		}
+	}
+}
+
 fn main() {
 	let args: Vec<String> = std::env::args().skip(1).collect();
 	if args.is_empty() {
@@ -282,6 +328,7 @@ fn main() {
 	let rc = match args[0].as_str() {
 		"c15" => c15(&args[1..]),
 		"slpp" => slpp::run(&args[1..]),
+		"c20-strings" => c20_strings(),
 		"c15-search" => c15_search(),
 		"c17" if !args.get(1).map_or(false, |a| is_case_id(a)) => c17(&args[1..]),
 		"c06" if !args.get(1).map_or(false, |a| is_case_id(a)) => c06(&args[1..]),
